@@ -9,7 +9,7 @@ OUTSIDE = ["the hash table itself (one-slot contract stub here; the real table i
 ASSUMPTIONS = ["caller contract: addto_usage_limit only by a creator that still retains the entry; used_once only while the entry is retained or has announced uses outstanding; the last announcement covers the uses already recorded",
                "hash-table contract stub: lock_bucket_handle excludes, nolock_find_handle returns the stored item, insert/remove under the lock (violations by datarepo are asserted)"]
 BOUNDS = {"quick": {"keys": 1, "retained": "0..3", "usagecnt/usagelmt": "0..1000 (inductive), limits 0..2 (history)", "history": "K=6 operations, <=3 creators", "nbdata": "1..3"},
-          "thorough": {"history": "K=8", "concurrent": "2 threads x 1-3 operations, R=3"}}
+          "thorough": {"history": "K=6,8,10", "concurrent": "2 threads x 1-2 operations; addto||used,used at R=3,4; create,addto||create,addto and used||create,addto at R=2"}}
 PATCH = [(H, r"data\[1\];", "data[VP_NDATA];")]
 STUBS = ["hash table: one-slot contract stub with a real parsec_atomic_lock as bucket lock", "mempool: static entries, never reused, frees recorded", "calloc/free of the repository object: static object",
          "parsec_output_verbose (empty)"]
@@ -20,20 +20,47 @@ def queries(ctx):
         qs.append(Q("ind_" + name, ["ha.c"], defs=["MODE=0", "OP=%d" % op, "VP_NDATA=3"], unwind=5, unwind_fn={"parsec_atomic_lock": 2, "data_repo_create_nothreadsafe": 17}, patches=PATCH, units=[U, H], object_bits=10,
                     info={"symbolic": ["pre-state: entry absent / present with retained 0..3, usagecnt, usagelmt 0..1000 (INV)", "announced limit 0..1000", "nbdata 1..3"],
                           "enumerated": ["operation kind = " + name], "bounds": {"keys": 1}, "functions": FUNCS, "stubs": STUBS}))
-    for K in ((6, 8) if ctx.thorough else (6,)):
+    for K in ((6, 8, 10) if ctx.thorough else (6,)):
         qs.append(Q("history_k%d" % K, ["ha.c"], defs=["MODE=1", "K=%d" % K, "VP_NDATA=3"], unwind=K + 1, unwind_fn={"parsec_atomic_lock": 2, "data_repo_create_nothreadsafe": 17}, patches=PATCH, units=[U, H], object_bits=10,
                     tiers=("quick", "thorough") if K == 6 else ("thorough",),
                     info={"symbolic": ["operation kind (create / addto_usage_limit(0..2) / used_once) at each of %d steps, within the caller contract" % K, "nbdata 1..3"],
                           "bounds": {"K": K, "creators": 3, "generations": 4}, "functions": FUNCS, "stubs": STUBS}))
     SC = {1: "create_addto_x2", 2: "addto_vs_used_used", 3: "last_use_vs_new_creator"}
-    for sc in (1, 2, 3):
-        for R in ((3, 4) if ctx.thorough else (3,)):
-            qs.append(Q("conc_%s_r%d" % (SC[sc], R), [], defs=["SCEN=%d" % sc, "VP_NDATA=3"], engine="S", patches=PATCH, units=[U, H],
-                        gen=seqir(["hs.c"], threads=["thread0", "thread1"], rounds=R, drain=True, ro_fields=["data_repo_s.1", "parsec_execution_stream_s.10"]), unwind=17, object_bits=10, timeout=3000, slow=True,
-                        tiers=("quick", "thorough") if R == 3 else ("thorough",),
-                        info={"symbolic": ["schedule: every SC interleaving with <= %d scheduling slots per thread, then deterministic drain (both threads must complete)" % R],
-                              "enumerated": ["scenario " + SC[sc]], "bounds": {"threads": 2, "rounds": R, "keys": 1}, "functions": FUNCS, "stubs": STUBS}))
+    def conc(sc, R, tiers, timeout=3000):
+        qs.append(Q("conc_%s_r%d" % (SC[sc], R), [], defs=["SCEN=%d" % sc, "VP_NDATA=3"], engine="S", patches=PATCH, units=[U, H],
+                    gen=seqir(["hs.c"], threads=["thread0", "thread1"], rounds=R, drain=True, ro_fields=["data_repo_s.1", "parsec_execution_stream_s.10"]),
+                    unwind=17, object_bits=10, timeout=timeout, slow=True, tiers=tiers,
+                    info={"symbolic": ["schedule: every SC interleaving with <= %d scheduling slots per thread, then deterministic drain (both threads must complete)" % R],
+                          "enumerated": ["scenario " + SC[sc]], "bounds": {"threads": 2, "rounds": R, "keys": 1}, "functions": FUNCS,
+                          "stubs": STUBS + ["Engine S: stub internals (table slot, mempool) run atomically (reached through function pointers); the bucket lock is a real interleaved spin lock"]}))
+    conc(2, 3, ("quick", "thorough"))
+    conc(1, 2, ("thorough",), timeout=5400)
+    conc(3, 2, ("thorough",), timeout=5400)
+    if ctx.thorough:
+        conc(2, 4, ("thorough",))
     return qs
 def mutants(ctx):
-    return []
-CLAIMED = False
+    return [
+      # DESIGN's example: the reclaim test of addto_usage_limit evaluated before the creator's release is recorded
+      Mutant("addto_tests_before_release", U, "    } while( !parsec_atomic_cas_int32( &e->usagelmt, ov, nv) );\n    e->retained--;\n\n    if( (e->usagelmt == e->usagecnt) && (0 == e->retained) ) {",
+             "    } while( !parsec_atomic_cas_int32( &e->usagelmt, ov, nv) );\n\n    if( (e->usagelmt == e->usagecnt) && (0 == e->retained--) ) {", queries=["ind_addto_usage_limit"]),
+      Mutant("used_once_ignores_retained", U, "    if( (e->usagelmt == r) && (0 == e->retained) ) {", "    if( (e->usagelmt == r) ) {", queries=["ind_used_once"]),
+      Mutant("used_once_compares_old_count", U, "    r = parsec_atomic_fetch_inc_int32(&e->usagecnt) + 1;", "    r = parsec_atomic_fetch_inc_int32(&e->usagecnt);", queries=["ind_used_once"]),
+      Mutant("create_found_forgets_retain", U, "    if( NULL != e ) {\n        e->retained++; /* Until we update the usage limit */", "    if( NULL != e ) {", queries=["ind_create"]),
+      Mutant("create_fresh_not_retained", U, "    e->retained = 1; /* Until we update the usage limit */", "    e->retained = 0; /* Until we update the usage limit */", queries=["ind_create", "history_k6"]),
+      Mutant("addto_free_without_remove", U, "        parsec_hash_table_nolock_remove_handle(&repo->table, &kh);\n        parsec_hash_table_unlock_bucket_handle(&repo->table, &kh);\n        parsec_thread_mempool_free(e->data_repo_mempool_owner, e );",
+             "        parsec_hash_table_unlock_bucket_handle(&repo->table, &kh);\n        parsec_thread_mempool_free(e->data_repo_mempool_owner, e );", queries=["ind_addto_usage_limit"]),
+      Mutant("create_clears_one_data_too_many", U, "    for(i = 0; i < repo->nbdata; e->data[i] = NULL, i++);", "    for(i = 0; i <= repo->nbdata; e->data[i] = NULL, i++);", queries=["ind_create"]),
+      Mutant("used_once_unlocks_before_test", U, "    r = parsec_atomic_fetch_inc_int32(&e->usagecnt) + 1;\n", "    r = parsec_atomic_fetch_inc_int32(&e->usagecnt) + 1;\n    parsec_hash_table_unlock_bucket_handle(&repo->table, &kh); parsec_hash_table_lock_bucket_handle(&repo->table, key, &kh);\n", queries=["conc_addto_vs_used_used_r3"]),
+    ] + ([
+      # concurrency mutants visible only to the thorough-tier Engine S queries
+      Mutant("create_no_recheck", U, "    e2 = (data_repo_entry_t*)parsec_hash_table_nolock_find_handle(&repo->table, &kh);\n    if( NULL != e2 ) {", "    e2 = NULL;\n    if( NULL != e2 ) {", queries=["conc_create_addto_x2_r2"]),
+      Mutant("create_loser_not_freed", U, "        parsec_thread_mempool_free( e->data_repo_mempool_owner, (void*) e );\n        e2->retained++;", "        e2->retained++;", queries=["conc_create_addto_x2_r2"]),
+    ] if ctx.thorough else [])
+CLAIMED = True
+MANIFEST = {
+ "engine": "cbmc-src",
+ "text": "Bounded model checking of the real datarepo.c on one key, with the hash table replaced by a one-slot contract stub (real spin lock as bucket lock; contract breaches by datarepo are asserted) and the mempool by a recording stub. Inductive queries: from every valid entry state (absent, or present with symbolic retained / usagecnt / usagelmt) ONE of lookup_entry_and_create, addto_usage_limit(n), used_once is executed symbolically and compared with the model: the entry is returned to its mempool and removed from the table exactly when retained == 0 and usagecnt == usagelmt, never earlier, never twice, and stays findable until then; the state invariant is re-established, so histories of any length are covered. A K-step symbolic history from the empty repository covers several creators and entry generations. Concurrent queries (IR-level sequentialization, 2 threads): addto_usage_limit racing with used_once; (thorough) two creators racing through the two critical sections of lookup_entry_and_create, and the last use racing with a new creator: exactly one entry stored, the loser's spare entry freed once, no entry reclaimed while retained or in the table.",
+ "note": "one key; hash table and mempool are contract stubs (the real ones are C32 / C27); counters within 0..1000; data[1] struct hack patched to data[3]; SC memory model, R=3 (quick) scheduling slots per thread + drain.",
+ "technique": "CBMC bounded model checking + SAT on the real translation unit (one operation from a symbolic valid pre-state, and bounded symbolic histories); IR-level sequentialization + CBMC for the concurrent scenarios",
+}
